@@ -28,7 +28,9 @@ class Scheduler:
         self.tasks = list(tasks)
         self.schedule = list(schedule or [0])
         self.abandon = {a["task"]: dict(a) for a in (abandon or [])}
-        self.reruns = {name: 1 for name in (reruns or [])}
+        self.reruns = {}
+        for name in reruns or []:
+            self.reruns[name] = self.reruns.get(name, 0) + 1  # listed twice = run three times in all
         self.max_events = max_events
         self.events = []                # (seq, kind, task, info)
         self.seq = 0
